@@ -371,7 +371,8 @@ def run_shard(spec):
 TEXT = ("Exhaustive over the finite scope node class (introspected) x operand slot x leaf form x wrapper nesting "
         "(~9 000 cases quick, ~35 000 thorough): each case is compared with the generator-derived dependency set "
         "and subjected to a perturbation experiment over every world location (value change => reported; "
-        "registered dependant recomputed). Arbitrary expressions beyond this scope are not enumerated.")
+        "registered dependant recomputed). Arbitrary expressions beyond this scope are not enumerated."
+        ' Plus pair cases (two different leaves, among them hash-colliding ones, in two slots of every multi-operand node) and walks over shared sub-expressions after a walk that failed with RecursionError.')
 NOTE = ("Trusted: the harness's own bookkeeping of what it placed in each slot; perturbations go through "
         "Manager.set_value. A node class without a recipe makes the check inconclusive rather than silent.")
 TECHNIQUE = "runtime monitoring: structural dependency oracle per node class x slot (introspected) + perturbation experiment through the manager observing value changes and dependant recomputation"
